@@ -11,7 +11,7 @@ fi
 [ -x "$bin" ] || { echo "fuzz target $t not built (see fuzz/README.md); skipped"; exit 0; }
 work=/verif/fuzz/target/run-$t-$$; mkdir -p "$work/corpus" "$work/art"
 cp /verif/corpus/$ID/*.bin "$work/corpus/" 2>/dev/null
-"$bin" -runs="$runs" -seed="${VERIF_SEED:-1}" -len_control=0 -max_len=4096 -artifact_prefix="$work/art/" -print_final_stats=1 "$work/corpus" > "$work/log" 2>&1
+"$bin" -runs="$runs" -max_total_time=900 -seed="${VERIF_SEED:-1}" -len_control=0 -max_len=4096 -artifact_prefix="$work/art/" -print_final_stats=1 "$work/corpus" > "$work/log" 2>&1
 grep -E "stat::number_of_executed_units|stat::new_units_added|cov:" "$work/log" | tail -3
 rc=0
 for a in "$work"/art/*; do [ -e "$a" ] || continue
